@@ -504,6 +504,7 @@ def cases(tier, seed):
     # 1. chunked: all small (n, chunk) + random larger
     cfgs = [{'n': n, 'chunk': c} for n in range(0, 26) for c in range(1, 9)]
     cfgs += [{'n': rng.randrange(0, 3000), 'chunk': rng.randrange(1, 1200)} for _ in range(200)]
+    cfgs += [{'n': 2500, 'chunk': 1}, {'n': 3100, 'chunk': 2}, {'n': 1200, 'chunk': 1}, {'n': 5000, 'chunk': 3}]      # thousands of chunks
     for i in range(0, len(cfgs), 80):
         yield {'kind': 'chunked', 'cfgs': cfgs[i:i + 80]}
     # 2. bounded-exhaustive completion orders
